@@ -44,6 +44,19 @@ fn text_for(construct: &str, depth: usize) -> String {
         "skipmap" => format!("{{a: missing, b: {}i1{}}}", "[".repeat(depth), "]".repeat(depth)),
         "skipcallarg" => format!("nofn([missing, {}true])", "!".repeat(depth)),
         "escapes" => format!("\"{}\"", "\\\\\\t\\\"".repeat(depth)),
+        // a deep term followed by a syntax error: the parser has to dispose of the partial tree
+        "adderr" => format!("{} >* i1", vec!["i1"; depth + 1].join("+")),
+        "negerr" => format!("{}a >* i1", "-".repeat(depth)),
+        "listerr" => format!("{}i1{} >* i1", "[".repeat(depth), "]".repeat(depth)),
+        // flat (not nested) large texts for C06: long lines, long literals, many escapes, with and without a syntax error at the end
+        "flat-error-line" => format!("{}>* i1", "i1 + ".repeat(depth)),
+        "flat-string-error" => format!("\"{}\" >* i1", "é".repeat(depth)),
+        "flat-crlf-comments-error" => format!("{}a >* b", "// c é\r\n".repeat(depth)),
+        "flat-list" => format!("[{}]", "i1, ".repeat(depth)),
+        "flat-list-error" => format!("[{}>* ]", "i1, ".repeat(depth)),
+        "flat-unicode-escapes" => format!("\"{}\"", "\\u{41}\\n".repeat(depth)),
+        "flat-bad-escape-at-end" => format!("\"{}\\q\"", "\\t".repeat(depth)),
+        "flat-map" => format!("{{{}}}", (0..depth).map(|i| format!("k{i}: i1, ")).collect::<String>()),
         _ => panic!("unknown construct {construct}"),
     }
 }
@@ -109,6 +122,28 @@ fn run(construct: &str, depth: usize, op: &str) -> i32 {
             let r = block_on(e.evaluate(&facts));
             std::mem::forget(r);
             std::mem::forget(e);
+        }
+        "compare-rules" => {
+            // two rules that share the deep expression but differ in name: telling them apart needs no look at the expression
+            let other = match Expr::parse(&text) {
+                Ok(o) => o,
+                Err(_) => return 3,
+            };
+            let a = Rule::new("first", std::collections::BTreeMap::new(), e);
+            let b = Rule::new("second", std::collections::BTreeMap::new(), other);
+            let eq = a == b;
+            let found = [&a].iter().any(|r| **r == b);
+            std::mem::forget(a);
+            std::mem::forget(b);
+            if eq || found {
+                return 4;
+            }
+        }
+        "debug-rule" => {
+            let r = Rule::new("deep", std::collections::BTreeMap::new(), e);
+            let s = format!("{r:?}");
+            std::mem::forget(s);
+            std::mem::forget(r);
         }
         "evaluate-in-ruleset" => {
             // the tree as one rule of a ruleset assembled through both builder entry points, evaluated with the others
